@@ -1,5 +1,6 @@
 """C06 — cache-aside store: coherent reads, load suppression, failure containment."""
 import os
+import sys
 
 import vlib
 
@@ -12,7 +13,13 @@ RULE = ("TLC explores the abstract cache-aside store (CacheAside.tla) over all s
         "miniredis, harness database), on sqlc.CachedConn (harness sqlx.SqlConn) and, thorough, on monc.Model "
         "(harness mon.Collection); seeded random histories (1-3 rows, 0-2 index keys, 7 expiry configurations incl. "
         "the defaults, retries of failed invalidations driven through the real cleaner on a fake ticker, store closed "
-        "for good) and phases of 2-6 concurrent readers behind a gated query function are added; every event carries "
+        "for good, node-type and cluster-type redis clients, row ids of three magnitudes incl. beyond 2^53) and phases "
+        "of 2-6 concurrent readers behind a gated query function are added, plus flows of 3-7 concurrent callers that "
+        "make 2-4 calls each over several keys - Take, QueryRow and QueryRowIndex through the shared barrier - on 1, 2 "
+        "and all processors; outages are placed between operations, inside query functions and - by a fault injector "
+        "counting store commands - at every command boundary inside reads, explicit sets and invalidations (generated histories end "
+        "with such operations; a sweep places the cut at commands 1-4 of every kind of operation on both client "
+        "types); every event carries "
         "the content and TTLs of the store and every trace is validated by TLC against CacheAside.tla. distinct = "
         "distinct operation histories executed (generated ones by content, random/concurrent ones by seed and index).")
 
@@ -63,8 +70,16 @@ def _count(run, n, label):
 def check(run):
     thorough = run.tier == "thorough"
     run.assumptions += [
-        "miniredis is a faithful Redis for GET / SET EX / SET NX EX / DEL, its keys expire only through FastForward "
-        "(ttl <= 0 removes the key) and SetError makes every command fail without touching the data",
+        "miniredis is a faithful Redis for GET / SET EX / SET NX EX / DEL (and SETNX / EXPIRE), also behind a go-redis "
+        "cluster client (single node owning every slot); its keys expire only through FastForward (ttl <= 0 removes the "
+        "key); the harness's fault injector is a miniredis pre-hook (the mechanism of miniredis.SetError): while down "
+        "every data command is answered with an error and the data is left alone, armed with n it lets n-1 data "
+        "commands through and goes down at the n-th (connection-level commands are always served)",
+        "a cached read fetches the entry first: an outage that begins at the first store command of a read is an "
+        "outage that lasted for the whole read (FailFast applies); one that begins at a later command may leave the "
+        "write-back undone or done, but never half-done (no entry without a TTL, no entry that is not the truth)",
+        "row ids are drawn from three magnitudes (0.., 2^53+1.., MaxInt64-64..); events carry key numbers, the drivers "
+        "map ids to key numbers (an id that is not a row's id maps to no key)",
         "the premise of the property is kept by the drivers: every database change is followed by an invalidation of "
         "the keys whose database content changes (Exec / Del), operations do not overlap except in the reader phases; "
         "an explicit Set of something the database does not hold marks the key as written behind the store's back "
@@ -81,35 +96,106 @@ def check(run):
         "is read again (they know which keys they invalidated during an outage); the kf histories show the known "
         "finding and are classified one by one",
     ]
-    w = 8 if thorough else 4
-    if os.environ.get("VERIF_C06_DEV_NOMC"):   # development aid (mutation screening): conformance part only
-        run.model_check = lambda *a, **k: None
+    design = _Design(run)
+    if not os.environ.get("VERIF_C06_DEV_NOMC"):   # (development aid for mutation screening: conformance part only)
+        design.start(thorough)
+    try:
+        _conformance(run, thorough)
+    finally:
+        design.join()
+
+
+class _Design:
+    """The design-level model checking (it does not depend on the tree under verification) runs on a thread of
+    its own, next to the conformance part (Go drivers + single-worker trace validations), within the worker budget
+    of the tier.  A failure is raised in the main thread when the conformance part is over."""
+
+    def __init__(self, run):
+        self.run, self.th, self.err = run, None, None
+
+    def start(self, thorough):
+        import threading
+        run = self.run
+        run._spec_copy(FAM)                      # one scratch copy of the specs, made before anything runs in parallel
+        lock, tmp0 = threading.Lock(), run.tmp
+
+        def tmp(name):
+            with lock:
+                return tmp0(name)
+        run.tmp = tmp
+        self.th = threading.Thread(target=self._work, args=(thorough,), daemon=True)
+        self.th.start()
+
+    def _work(self, thorough):
+        try:
+            _design(self.run, thorough)
+        except BaseException as ex:              # noqa - re-raised by join()
+            self.err = ex
+
+    def join(self):
+        if self.th is not None:
+            self.th.join()
+            self.th = None
+            if self.err is not None and sys.exc_info()[0] is None:
+                raise self.err
+
+
+def _design(run, thorough):
+    w = 6 if thorough else 3
     # ---- design level: the abstract store satisfies the clauses of C06 over all histories
     if thorough:
         run.model_check(FAM, "CacheAsideMC", "CacheAsideMCa.cfg", workers=w,
-                        note="1 primary + 1 index key, rows {1,2}, taint, flips, SetWithExpire; any length "
-                             "(state relative to the clock)")
+                        note="1 primary + 1 index key, rows {1,2}, taint, flips, SetWithExpire, outages beginning inside "
+                             "reads and invalidations; any length (state relative to the clock)")
         run.model_check(FAM, "CacheAsideMC", "CacheAsideMCb.cfg", workers=w,
-                        note="2 primary keys, rows {1,2}, taint, flips, SetWithExpire; any length")
-        run.model_check(FAM, "CacheAsideMC", "CacheAsideMCt.cfg", workers=w, timeout=1500,
-                        note="2 primary + 1 index key, row {1}; any length")
+                        note="2 primary keys, rows {1,2}, taint, flips, SetWithExpire, cuts; any length")
+        run.model_check(FAM, "CacheAsideMC", "CacheAsideMCt.cfg", workers=w, timeout=2400, heap="6g",
+                        note="2 primary + 1 index key, row {1}, outages beginning at the 2nd / 3rd store access of an "
+                             "operation (partial invalidations of 2-3 keys); any length")
     else:
         run.model_check(FAM, "CacheAsideMC", "CacheAsideMCqa.cfg", workers=w,
-                        note="1 primary + 1 index key, rows {1,2}, taint, flips; any length (state relative to the clock)")
+                        note="1 primary + 1 index key, rows {1,2}, taint, flips, outages beginning inside reads and "
+                             "invalidations (cuts); any length (state relative to the clock)")
         run.model_check(FAM, "CacheAsideMC", "CacheAsideMCqb.cfg", workers=w,
-                        note="2 primary keys, rows {1,2}, flips; any length")
+                        note="2 primary keys, rows {1,2}, flips, cuts; any length")
+    # ---- the concurrent-reader clauses of the abstract store (primary and index keys side by side): satisfiable,
+    #      and they imply coherent reads for a phase without writes
+    if thorough:
+        run.model_check(FAM, "CacheAsideConc", "CacheAsideConcMC.cfg", workers=w,
+                        note="1 primary + 1 index key, 3 calls, 3 queries, 1 database error: any reader population")
+        run.model_check(FAM, "CacheAsideConc", "CacheAsideConcMC2.cfg", workers=w,
+                        note="2 primary + 1 index key, 2 calls, 3 queries, 1 database error")
+    else:
+        run.model_check(FAM, "CacheAsideConc", "CacheAsideConcMCq.cfg", workers=w,
+                        note="1 primary + 1 index key, 2 calls, 3 queries, 1 database error: any reader population")
     # ---- Layer I: doTake / SingleFlight / Exec / cleaner, every interleaving, against the clauses
     run.model_check(FAM, "CacheImpl", "CacheImplMC.cfg" if thorough else "CacheImplMCq.cfg", workers=w, timeout=1500,
                     note="2 readers x 2 calls, 2 writes, 2 faults, expiry" if thorough else
                          "3 readers x 1 call, 1 write, 1 fault")
-    bugs = [("CacheImplOverlap.cfg", "without the premise: a write overlapping a read leaves a stale entry (CoherentAlways)"),
-            ("CacheImplNoBarrier.cfg", "no SingleFlight: two queries at a time")]
+    # the barrier shared by all keys, callers reading several keys one after the other; DelCtx + retry tasks + cleaner
+    run.model_check(FAM, "CacheFlight", "CacheFlightMC.cfg" if thorough else "CacheFlightMCq.cfg", workers=w,
+                    note="3 callers x <= 2 calls (%d altogether) x 2 keys, a new call object per load (flightGroup); "
+                         "callers symmetric" % (6 if thorough else 4))
+    run.model_check(FAM, "CacheDel", "CacheDelMC.cfg", workers=2,
+                    note="DelCtx of 1-3 keys on node / cluster type, 3 outage toggles between any two commands, cleaner")
+    bugs = [("CacheImpl", "CacheImplOverlap.cfg", "without the premise: a write overlapping a read leaves a stale entry (CoherentAlways)"),
+            ("CacheImpl", "CacheImplNoBarrier.cfg", "no SingleFlight: two queries at a time"),
+            ("CacheFlight", "CacheFlightLeader.cfg", "call objects recycled as soon as the leader has read its result: a "
+             "caller that shared the load reads a later load's result (SharedResult)"),
+            ("CacheDel", "CacheDelLoopVar.cfg", "per-key retry closures sharing the loop variable: a failed key is not the "
+             "target of any retry task (Covered)"),
+            ("CacheImpl", "CacheImplTwoStep.cfg", "placeholder written by SETNX + EXPIRE: an outage between the two leaves a "
+             "persistent key (FiniteTTL)")]
     if thorough:
-        bugs += [("CacheImplDbErr.cfg", "placeholder written on a database error"),
-                 ("CacheImplQueryOnErr.cfg", "query although the GET failed")]
-    for cfg, what in bugs:
-        run.model_check(FAM, "CacheImpl", cfg, workers=2, expect="violation", note="documented counterexample: " + what)
+        bugs += [("CacheImpl", "CacheImplDbErr.cfg", "placeholder written on a database error"),
+                 ("CacheImpl", "CacheImplQueryOnErr.cfg", "query although the GET failed")]
+        run.model_check(FAM, "CacheFlight", "CacheFlightLast.cfg", workers=w,
+                        note="call objects recycled when the last caller holding them has read them")
+    for mod, cfg, what in bugs:
+        run.model_check(FAM, mod, cfg, workers=2, expect="violation", note="documented counterexample: " + what)
 
+
+def _conformance(run, thorough):
     # ---- cache.NewNode
     beh = run.generate(FAM, "CacheAsideMC", "CacheAsideGenNode5.cfg" if thorough else "CacheAsideGenNode.cfg", workers=1)
     for b in beh:
@@ -118,10 +204,10 @@ def check(run):
     tr = run.go_driver(PKG, DRV, "TestVerifCacheNodeReplay$", inp=beh)
     _validate(run, tr, "node-replay")
     env = {"VERIF_CACHE_HIST": 200, "VERIF_CACHE_LEN": 100, "VERIF_CACHE_ROUNDS": 150, "VERIF_CACHE_KFHIST": 3,
-           "VERIF_CACHE_KFSCEN": 4} if thorough else \
+           "VERIF_CACHE_KFSCEN": 4, "VERIF_CACHE_FLOWS": 60} if thorough else \
           {"VERIF_CACHE_HIST": 30, "VERIF_CACHE_LEN": 60, "VERIF_CACHE_ROUNDS": 25, "VERIF_CACHE_KFHIST": 0,
-           "VERIF_CACHE_KFSCEN": 0}
-    tr = run.go_driver(PKG, DRV, "TestVerifCacheNode(Random|Conc|KF)$", env=env)
+           "VERIF_CACHE_KFSCEN": 0, "VERIF_CACHE_FLOWS": 12}
+    tr = run.go_driver(PKG, DRV, "TestVerifCacheNode(Random|Conc|KF|Cuts|Flow)$", env=env)
     _count(run, _validate(run, tr, "node-random+conc"), "node-random")
     if thorough:
         tr = run.go_driver(PKG, DRV, "TestVerifCacheNodeConc$", env=env, cpu="2,16")
@@ -135,9 +221,11 @@ def check(run):
     run.evaluations += len(beh2)
     tr = run.go_driver(SQLC, SQLC_DRV, "TestVerifCacheSqlcReplay$", inp=beh2, extra_overlay=ov)
     _validate(run, tr, "sqlc-replay")
-    env = {"VERIF_CACHE_HIST": 200, "VERIF_CACHE_LEN": 100, "VERIF_CACHE_ROUNDS": 80, "VERIF_CACHE_KFHIST": 3} if thorough \
-        else {"VERIF_CACHE_HIST": 30, "VERIF_CACHE_LEN": 60, "VERIF_CACHE_ROUNDS": 12, "VERIF_CACHE_KFHIST": 0}
-    tr = run.go_driver(SQLC, SQLC_DRV, "TestVerifCacheSqlc(Random|Conc|KF)$", extra_overlay=ov, env=env)
+    env = {"VERIF_CACHE_HIST": 200, "VERIF_CACHE_LEN": 100, "VERIF_CACHE_ROUNDS": 80, "VERIF_CACHE_KFHIST": 3,
+           "VERIF_CACHE_FLOWS": 60} if thorough \
+        else {"VERIF_CACHE_HIST": 30, "VERIF_CACHE_LEN": 60, "VERIF_CACHE_ROUNDS": 12, "VERIF_CACHE_KFHIST": 0,
+              "VERIF_CACHE_FLOWS": 12}
+    tr = run.go_driver(SQLC, SQLC_DRV, "TestVerifCacheSqlc(Random|Conc|KF|Flow)$", extra_overlay=ov, env=env)
     _count(run, _validate(run, tr, "sqlc-random+conc"), "sqlc-random")
 
     # ---- monc.Model (harness mon.Collection; no MongoDB server)
@@ -154,20 +242,29 @@ LEVEL_TEXT = ("Exhaustive TLC model checking of the abstract cache-aside store (
               "cache, errors not cached, fail fast, finite TTLs, cleaner restores coherence as invariants / action "
               "properties) and of an implementation-shaped model of doTake + SingleFlight + Exec + cleaner under every "
               "interleaving (one query at a time, shared result, coherence under the non-overlap premise; documented "
-              "counterexamples without the premise / without the barrier), plus conformance: TLC-generated transition-"
+              "counterexamples without the premise / without the barrier / placeholder written in two commands), of the "
+              "barrier shared by several keys with callers making successive calls (CacheFlight: shared result per key, "
+              "no lost wake-up; counterexample: call objects recycled by the leader) and of DelCtx + retry tasks + cleaner "
+              "on node / cluster type with outages between any two commands (CacheDel: whatever a failed invalidation "
+              "leaves behind is the target of a pending retry; counterexample: closures sharing the loop variable); the "
+              "abstract store includes outages that begin inside a read or an invalidation (partial invalidation, "
+              "write-back undone or done, never half-done); plus conformance: TLC-generated transition-"
               "cover histories replayed on the real cacheNode, sqlc.CachedConn and monc.Model over miniredis, long "
               "random histories with fault placement and concurrent reader phases, every trace - with the store's "
               "content and TTLs after every call - validated by TLC against CacheAside.tla.")
 LEVEL_NOTE = ("Trusted: TLC/SANY, the Go toolchain, miniredis (command semantics, ttl by FastForward, SetError), hooks "
               "H1 (virtual clock, only to reset the redis breaker) and H2 (wheel.fire, only to wait for the cleaner), "
-              "the emitter's ordering. Design level bounded to 3 keys / 2 row versions / 3 readers. Redis cluster mode "
-              "(per-key DEL, cacheCluster dispatch by consistent hash), real MongoDB / SQL servers, overlapping "
+              "the emitter's ordering. Design level bounded to 3 keys / 2 row versions / 3 readers. Redis cluster type is "
+              "exercised through a go-redis cluster client on one miniredis node (per-key DEL and retry tasks); a store "
+              "closed for good is only tried on node-type clients; cacheCluster dispatch by consistent hash (C15), "
+              "real MongoDB / SQL servers, overlapping "
               "read/write histories (outside the property's premise; modelled in CacheImpl only) and the cleaner's "
               "retry schedule are not part of the verdict. Known finding KF_StaleAfterFailedInvalidation is reported, "
               "not judged.")
 TECHNIQUE = ("TLA+ specs (CacheAside Layer P, CacheImpl Layer I), TLC exhaustive checks incl. documented counterexamples, "
              "TLC-generated transition-cover replay + TLC trace validation with full store snapshots; gated query "
-             "function for concurrent readers")
+             "function for concurrent readers and multi-key caller flows; command-counting fault injector (miniredis "
+             "pre-hook); node- and cluster-type clients; id magnitudes")
 DESIGN_REF = "DESIGN.md Part B C06"
 
 
